@@ -244,6 +244,10 @@ func (rw *rewriter) file(f *ast.File) {
 		case rw.rel == "lib/value/pool.go" && fd.Name.Name == "Discard" && fd.Recv == nil && len(fd.Type.Params.List) == 1 && len(fd.Type.Params.List[0].Names) == 1:
 			stmt = &ast.ExprStmt{X: shimCall("vrt", "OnDiscard", ast.NewIdent(fd.Type.Params.List[0].Names[0].Name))}
 			rw.hit("point", "vrt")
+		case rw.rel == "lib/query/eval.go" && fd.Name.Name == "Evaluate" && fd.Recv == nil:
+			// every expression evaluation is a (switchable) scheduling point: the explorer uses it only where asked to
+			stmt = &ast.ExprStmt{X: shimCall("vrt", "Point", &ast.BasicLit{Kind: token.STRING, Value: `"eval"`})}
+			rw.hit("point", "vrt")
 		case rw.rel == "lib/query/goroutine_manager.go" && fd.Name.Name == "HasError" && fd.Recv != nil:
 			stmt = &ast.ExprStmt{X: shimCall("vrt", "Point", &ast.BasicLit{Kind: token.STRING, Value: `"iter"`})}
 			rw.hit("point", "vrt")
